@@ -451,14 +451,19 @@ def writer_harness(I: Interp) -> None:
         made: list[dict] = []
         models.CLASS_MODELS[lg._PenlogRecordV2] = lambda I2, cls, a, k, m=made: (
             m.append(k), VObj(Stub, {}, lazy=True, tag="penlog"))[1]
-        models.MODELS[lg.dataclasses.asdict] = lambda I2, a, k: VDict([])
+        models.MODELS[lg.dataclasses.asdict] = lambda I2, a, k, m=made: VDict(
+            [(VStr(kk), vv) for kk, vv in (m[-1].items() if m else [])])
         dumps_kw: list[dict] = []
-        models.MODELS[lg.json.dumps] = lambda I2, a, k, d=dumps_kw: (d.append(k), VStr("{}"))[1]
+        dumped: list[V] = []
+        models.MODELS[lg.json.dumps] = lambda I2, a, k, d=dumps_kw, dd=dumped: (
+            d.append(k), dd.append(a[0]), VStr("{}"))[2]
         rec2 = VObj(Stub, {"levelno": wrap_enum(lv_), "exc_info": NONE, "name": VStr("m"),
                            "created": VFloat(0.0), "pathname": VStr("p"), "lineno": VInt(1),
                            "levelname": VStr(lv_.name), "funcName": VStr("f"),
                            "__dict__": VDict([])}, lazy=True, tag="record")
-        I.ex.stubs[("record", "getMessage")] = lambda I2, r, a, k: VStr("msg")
+        # an empty message is a record like any other (INFO level: the empty one)
+        I.ex.stubs[("record", "getMessage")] = lambda I2, r, a, k, e=(lv_.name == "INFO"): VStr(
+            "" if e else "msg")
         # datetime contract: fromtimestamp(t, tz) / now(tz) / astimezone() give an *aware* value,
         # whose isoformat() carries the UTC offset; without tz the value is naive local time
         iso: list[bool] = []
@@ -483,6 +488,11 @@ def writer_harness(I: Interp) -> None:
             pr = made[0].get("priority") if made else None
             I.prove(f"W-json-priority-field-is-{want}-for-{lv_.name}",
                     models.as_int(I, pr) == want if pr is not None else z3.BoolVal(False))
+            if dumped and isinstance(dumped[0], VDict):
+                keys = {kk.s for kk, _ in dumped[0].items if isinstance(kk, VStr)}
+                need = {"module", "host", "data", "datetime", "priority"}
+                I.prove(f"W-serialised-record-carries-every-mandatory-field({lv_.name})",
+                        z3.BoolVal(need <= keys), f"missing: {sorted(need - keys)}")
             if lv_.name == "INFO":
                 I.prove("W-record-time-is-an-aware-datetime(its-text-carries-the-UTC-offset)",
                         z3.BoolVal(iso == [True]), f"isoformat() on aware values: {iso}")
@@ -494,6 +504,25 @@ def writer_harness(I: Interp) -> None:
             I.fail(f"W-format-does-not-raise({lv_.name})", e.exc.cls.__name__)
         finally:
             models.CLASS_MODELS.pop(lg._PenlogRecordV2, None)
+    # precondition of "every record handed to the logger reaches the file": the queue between the
+    # logging call and the writer thread is unbounded (QueueHandler enqueues with put_nowait and
+    # drops the record when the queue is full)
+    import ast
+    import inspect
+    import textwrap
+    n_q = 0
+    for fname in ("add_zst_log_handler", "setup_logging"):
+        fn = getattr(lg, fname, None)
+        if fn is None:
+            continue
+        for n in ast.walk(ast.parse(textwrap.dedent(inspect.getsource(fn)))):
+            if isinstance(n, ast.Call) and ast.unparse(n.func).split(".")[-1] in (
+                    "Queue", "SimpleQueue"):
+                n_q += 1
+                bounded = bool(n.args) or any(k.arg == "maxsize" for k in n.keywords)
+                I.prove(f"W-log-queue-is-unbounded(no-record-is-dropped):{fname}",
+                        z3.BoolVal(not bounded), ast.unparse(n))
+    I.prove("W-log-queue-construction-found", z3.BoolVal(n_q >= 1))
 
 
 def open_harness(I: Interp) -> None:
@@ -582,6 +611,24 @@ def native_writer() -> tuple[bool, str]:
     shutil.rmtree(tmp, ignore_errors=True)
     logging.getLogger(name).handlers.clear()
     return bad is not None, bad or "filtering on the line prefix equals filtering on the field"
+
+
+def native_empty_message() -> tuple[bool, str]:
+    """a record with an empty message must be written and read back like any other"""
+    import logging
+    lg = L()
+    f = lg._JSONFormatter()
+    for msg in ("", "0", " ", "x"):
+        rec = logging.LogRecord("c17", int(lg.Loglevel.INFO), "p.py", 1, msg, (), None, "fn")
+        line = f.format(rec)
+        try:
+            back = lg.PenlogRecord.parse_json(line.encode())
+        except Exception as e:  # noqa: BLE001
+            return True, (f"a record with the message {msg!r} is written as {line!r}, which the "
+                          f"reader cannot parse: {type(e).__name__}: {e}")
+        if back.data != msg:
+            return True, f"message {msg!r} is read back as {back.data!r}"
+    return False, "empty and short messages are written and read back"
 
 
 def native_formatter() -> tuple[bool, str]:
@@ -685,6 +732,8 @@ def native_replay(unit: str, obligation: str, model: dict) -> tuple[bool, str]:
     lg = L()
     if unit.startswith("writer/") and ("aware-datetime" in obligation or "is-ASCII" in obligation):
         return native_formatter()
+    if unit.startswith("writer/") and "mandatory-field" in obligation:
+        return native_empty_message()
     if unit.startswith("writer/"):
         return native_writer()
     if unit in ("reader/open", "reader/records-reverse-empty-log"):
